@@ -43,6 +43,9 @@ THEOREMS = [
     "C12_output_sorted",
     "C12_output_perm_distinct_keys",
     "C12_output_same_key_order_matters",
+    "C12_to_stream_insert_history_irrelevant",
+    "C12_output_same_key_arrival_order_by_id",
+    "C12_output_hash_ordered_ids_observable",
     "C12_render_twice",
 ]
 GEN_V = os.path.join(vlib.COQ, "theories", "Gen", "HashSites.v")
@@ -521,9 +524,72 @@ def sequence_check(ctx, viol):
     return docs
 
 
+# ---------------------------------------------------------------------------
+# same-output-key family: two DIFFERENT types (type ids) filing items under ONE OutputSpace key, so the
+# order of arrival (= iteration order of TypeSpace.id_to_entry) is visible in the bytes
+# ---------------------------------------------------------------------------
+def gen_same_key_doc(rnd, npairs=None):
+    cap = lambda w: w.capitalize()
+    used = set()
+
+    def fresh(n):
+        out = []
+        while len(out) < n:
+            w = rnd.choice(WORDS)
+            if w not in used:
+                used.add(w)
+                out.append(w)
+        return out
+
+    def member(pfx):
+        # a member with a non-intrinsic default: its default fn is filed under (Defaults, <type name>)
+        r = rnd.random()
+        if r < 0.5:
+            return {"type": "string", "default": pfx + "-" + rnd.choice(WORDS)}
+        if r < 0.8:
+            return {"type": "array", "items": {"type": "string"}, "default": [pfx] + _words(rnd, 3)}
+        return {"type": "object", "additionalProperties": {"type": "string"}, "default": {pfx: rnd.choice(WORDS)}}
+
+    def tagged(tag, variants):
+        subs = []
+        for vname, members in variants:
+            props = {tag: {"type": "string", "enum": [vname]}}
+            props.update(members)
+            subs.append({"type": "object", "properties": props, "required": [tag]})
+        return {"oneOf": subs}
+
+    defs = {}
+    kinds = []
+    for _ in range(npairs or rnd.randrange(3, 7)):
+        e, v, w, m1, m2 = fresh(5)
+        pat = rnd.choice(["variant-vs-struct", "variant-vs-variant", "external-variant-vs-struct"])
+        kinds.append(pat)
+        tag = rnd.choice(["kind", "type", "t"])
+        if pat == "variant-vs-struct":
+            # enum E, variant V {m1 default}  and  struct EV {m2 default}: both under key "EV"
+            defs[cap(e)] = tagged(tag, [(v, {m1: member("enum")}), ("plain", {})])
+            defs[cap(e) + cap(v)] = {"type": "object", "properties": {m2: member("struct")}}
+        elif pat == "variant-vs-variant":
+            # enum E variant V_W  and  enum EV variant W: both under key "EVW"
+            defs[cap(e)] = tagged(tag, [(v + "_" + w, {m1: member("first")}), ("plain", {})])
+            defs[cap(e) + cap(v)] = tagged(tag, [(w, {m2: member("second")}), ("plain2", {})])
+        else:
+            defs[cap(e)] = {"oneOf": [
+                {"type": "object", "properties": {cap(v): {"type": "object", "properties": {m1: member("ext")}}},
+                 "required": [cap(v)], "additionalProperties": False},
+                {"type": "string", "enum": ["unit"]}]}
+            defs[cap(e) + cap(v)] = {"type": "object", "properties": {m2: member("struct")}}
+    # some unrelated types in between so that the colliding ids are not neighbours
+    for _ in range(rnd.randrange(2, 8)):
+        (n,) = fresh(1)
+        defs[cap(n) + "Pad"] = {"type": "object", "properties": {"p": {"type": "integer"}}}
+    return {"definitions": defs}, kinds
+
+
 # which generator families exercise a source file (used to focus the search when the inventory changes)
 FOCUS_BY_FILE = [
-    ("value.rs", "defaults"), ("defaults.rs", "defaults"),
+    ("value.rs", "defaults"), ("defaults.rs", "defaults"), ("lib.rs", "samekey"), ("output.rs", "samekey"),
+    ("type_entry.rs", "samekey"),
     ("structs.rs", "objects"), ("enums.rs", "enums"), ("merge.rs", "allof"), ("util.rs", "enums"),
 ]
 
@@ -533,6 +599,8 @@ def focus_of(uncovered):
     for u in uncovered or []:
         f = u.split("|")[0].strip()
         hit = [fam for pat, fam in FOCUS_BY_FILE if f.endswith("/" + pat)]
+        if f.endswith(("/lib.rs", "/output.rs", "/type_entry.rs")):
+            hit = hit + ["all"]  # the central files: every family, plus the same-output-key family
         fams.update(hit or ["all"])
     return sorted(fams)
 
@@ -569,6 +637,10 @@ def collect_docs(ctx, focus=()):
         d = gen_doc(rnd, size)
         style = rnd.choice(STYLES)
         docs.append(("gen:%d:%s" % (i, size), dump_raw(load_raw(json.dumps(d)), "keep", style, rnd)))
+    n_sk = (2 if ctx.tier == "quick" else 12) + (30 if ("samekey" in focus or "all" in focus) else 0)
+    for i in range(n_sk):
+        d, _kinds = gen_same_key_doc(rnd)
+        docs.append(("gen:same-output-key:%d" % i, json.dumps(d)))
     for k, d in REC_DOCS.items():
         docs.append(("gen:recursive-defaults:%s" % k, json.dumps(d, indent=1)))
     for i in range(4 if ctx.tier == "quick" else 20):
